@@ -94,6 +94,9 @@ def main(prop, tier, seed):
     if prop == 'C10':
         from props import errpath
         errpath.safe(errpath.add_finders, rep, 'C10.errpath')
+        # the item getters of the explanation path: every subscription of the pith is defined (a Sequence index in range) - an undefined one
+        # is not "indexing of a re-iterable collection": on a defaultdict-like mapping it INSERTS the invented key
+        errpath.safe(errpath.add_enumerators, rep, 'C10.errpath')
         errpath.safe(errpath.add_explain_bounded, rep, 'C10.errpath')
     rep.extra['explanation'] = ('each obligation is a z3 query over all objects x and all 32-bit draws r on the text captured from the real generator; '
                                 'node shapes = induction step, composed shapes = bounded composition check')
